@@ -23,7 +23,7 @@ EXPLANATION = (
     "(which then reaches the join routine's own terminal handler, checked likewise). addCallbacks' same-level rule is "
     "respected: the lookup's errback does not see a failure of the metadata load started by its success arm."
 )
-SHARED = [('C16', ['R3'], 'eviction arms reset the member identity so that the rejoin can succeed')]
+SHARED = [('C16', ['R3'], 'eviction arms reset the member identity so that the rejoin can succeed'), ('C15', ['R6'], 'the leader can always complete the assignment (loads exactly the topics it was told are missing)')]
 ASSUMPTIONS = [
     "Twisted: a failure returned by an errback (or raised) propagates; returning anything else absorbs it",
     "a failure propagating out of a Deferred that an inlineCallbacks generator yields is raised at the yield",
